@@ -105,7 +105,7 @@ func main() {
 	r.Assume("the leader's state trees use mkvs.Capacity(0,0) (no eviction) because of the cache accounting finding mkvs/cache-valuesize-underflow/*; the real Apply path and the tree of step 2 use the default capacity, and a failure there is attributed to that finding only when the same operation succeeds on a non-evicting tree")
 
 	rn := &runner{r: r, versions: 10, maxOps: 10, perKind: r.Pick(3, 4), stats: stats{}}
-	nHist := r.Pick(240, 2400) // per backend pairs = nHist/2 * versions * ~1.5 (state + IO)
+	nHist := r.Pick(240, 24000) // per backend pairs = nHist/2 * versions * ~1.5 (state + IO)
 
 	if r.ReplayFile != "" {
 		var doc struct {
@@ -138,7 +138,7 @@ func main() {
 	observePathbadgerReuseAfterFailedCommit(r)
 	evid.Parallel(nHist, 0, func(h int) { rn.runHistory(h) })
 	// Evicting-leader cases (evict.go): both backends per case index.
-	nEvict := r.Pick(200, 6000)
+	nEvict := r.Pick(200, 40000)
 	evid.Parallel(nEvict, 0, func(i int) {
 		st := stats{}
 		for _, b := range backends {
